@@ -27,7 +27,25 @@ TRUSTED = [
     "hash160/sha256/… are parameters of the model; the digest of each key is computed by the harness (hashlib)",
     "btclib's script engine is the judge of satisfactions (its own conformance is C08's)",
 ]
-ASSUMPTIONS = []
+ASSUMPTIONS = [
+    # hypotheses the counted theorems carry (each is named in Props/C15.lean and in the manifest)
+    "hsig0: an empty signature verifies under no key (the evaluator model's E.sigOK k [] = false)",
+    "hH / hh: the evaluator's hash160 is the 20-byte function the script was compiled with",
+    "s1Typed: every node typed; numbers as _assert_shape has them (lock times 1..2^31-1, multi 1<=k<=n<=20, "
+    "multi_a 1<=k<=n<=999, thresh 1<=k<=#args<2^31)",
+    "EnvOK: offered signatures verify, offered preimages hash to their digests, the satisfier's _older/_after reading "
+    "of the lock times is the interpreter's CSV/CLTV verdict (satisfy_accepted_partial)",
+    "SigsSmall: offered signatures are at most 72 (P2WSH) / 65 (tapscript) bytes",
+    "zeroOK: no digest in the expression is the hash of 32 zero bytes (the satisfier's hash dissatisfaction)",
+    "withinLimits = is_within_resource_limits (tied by the `bounds` stream); opsStaticOK: P2WSH static op count + the "
+    "keys of EVERY multi() <= 201 (follows from is_within_resource_limits when there is no multi(): "
+    "ops_static_of_within_limits)",
+    "h1000: the returned witness has at most 1000 elements (derived from is_within_resource_limits for P2WSH, "
+    "quorum-free expressions, canonical candidate: satisfy_accepted_p2wsh_partial; a hypothesis otherwise)",
+    "hcan / noQuorum (bounds theorem only): the chosen candidate is canonical (observed: always for sane expressions, "
+    "counted per run as sat.canonical) and the expression has no multi/multi_a/thresh",
+    "numsOK (T2): every number of the expression is written in at most ten digits",
+]
 
 CTXS = (P2WSH, TAPSCRIPT)
 sys.setrecursionlimit(max(sys.getrecursionlimit(), 30000))
@@ -789,7 +807,7 @@ def run(ctx):
                       f"engine={r['engine_ok']}")
     for ln in exec_lines:
         tk = set(ln.split(" ")[7:])
-        ctx.count("exec.fragments", "with thresh/multi/multi_a" if tk & {"thresh", "multi", "multi_a"} else "covered set only")
+        ctx.count("exec.fragments", "with thresh/multi/multi_a" if tk & {"thresh", "multi", "multi_a"} else "no quorum fragment")
     ctx.stream("exec", exec_lines, nontrivial=lambda line, out: True)
     ctx.stream("sat", sat_lines, nontrivial=lambda line, out: out.startswith("ok"))
     # the bounds theorem (satisfy_within_bounds_partial) assumes the chosen candidate is canonical: how often is it?
@@ -825,10 +843,12 @@ def run(ctx):
         ctx.note("miniscript_sizer/max_witness_stack under-estimates the witness of an INSANE expression, e.g. "
                  + INSANE_SIZER[0])
         del INSANE_SIZER[:]
-    ctx.note("T3/T4 are partial: covered_constructors = 0, 1, pk_k, pk_h, older, after, sha256, hash256, ripemd160, hash160, "
-             "a:, s:, c:, d:, v:, j:, n:, and_v, and_b, or_b, or_c, or_d, or_i, andor (Props.C15.type_soundness_partial / "
-             "satisfaction_accepted_partial / satisfy_accepted_partial); not covered: multi multi_a thresh, the satisfier's choice and "
-             "the soundness of the static bounds (bounds tables: `bounds` stream; actual spends: `spend` oracle)")
+    ctx.note("T3 (Props.C15.type_soundness, stack_arity) covers every fragment, the quorums multi, multi_a, thresh included; "
+             "T4: satisfy ⊆ Sat and acceptance (satisfaction_accepted_partial / satisfy_accepted_partial) cover every fragment, "
+             "partial in the 201-op hypothesis (opsStaticOK: static count + keys of every multi() <= 201) and the "
+             "1000-element hypothesis; the witness/stack bound soundness (satisfy_within_bounds_partial) covers quorum-free "
+             "expressions with a canonical chosen candidate; the rest of T4 is checked on the real code: bounds tables by the "
+             "`bounds` stream, actual spends by the `spend` oracle")
     ctx.note(f"spend oracle: {produced} satisfactions produced and run through the real engine (p2wsh and tapscript)")
     for n in nodes:
         w = {"context": n.context, "tokens": " ".join(tokens(n))}
